@@ -513,8 +513,8 @@ package engine
 //@ func (c *compiler) compileMeta(m) (meta)
 //@   requires m != nil
 //@   requires typing: forall i int {m.Vars[i]} :: 0 <= i && i < len(m.Vars) ==> m.Vars[i] != nil && m.Vars[i].Type != nil && forall j int {m.Vars[i].Names[j]} :: 0 <= j && j < len(m.Vars[i].Names) ==> m.Vars[i].Names[j] != nil
-//@   at call (*engine.compiler).errf#0 assert [C19] unknown-type-reported-at-the-type-name: arg1 == decl.Type.NamePos
-//@   at call (*engine.compiler).errf#1 assert [C19] duplicate-reported-at-the-second-name: arg1 == name.NamePos && has(declPos, name.Name)
+//@   at call (*engine.compiler).errf where arg2 is "unknown metavariable type %q" assert [C19] unknown-type-reported-at-the-type-name: arg1 == decl.Type.NamePos
+//@   at call (*engine.compiler).errf where arg2 is "cannot define metavariable %q: name already taken by metavariable defined at %v" assert [C19] duplicate-reported-at-the-second-name: arg1 == name.NamePos && has(declPos, name.Name)
 //@   at call (*engine.compiler).errf set metaErrors = metaErrors + 1
 //@   assigns c.errors, elems(c.errors), metaErrors
 //@   ensures meta != nil && meta.Vars != nil
